@@ -1103,6 +1103,20 @@ def run(prop, tier, obs, jobs, replay_dir, known_sites):
         else:
             unit_status[u["name"]] = {f["fn"] for f in m["findings"]} | set(m.get("undecided_fns", []))
 
+    # arbiter -> the exact obligations it arbitrates
+    clients = {}
+    for u in units:
+        for ob in u["obs"]:
+            if ob.get("arbiter"):
+                arb = ob["arbiter"] if "::" in ob["arbiter"] and ob["arbiter"].split("::")[0] in unit_status else "%s::%s" % (u["name"], ob["arbiter"])
+                clients.setdefault(arb, []).append((u["name"], ob["fn"]))
+
+    def clients_all_pass(unit_name, fn):
+        cl = clients.get("%s::%s" % (unit_name, fn))
+        if not cl:
+            return False
+        return all(unit_status.get(cu) is not None and cf not in unit_status[cu] for cu, cf in cl)
+
     def arbiter_ok(arb, this_unit, names, failing, unit_status):
         if "::" in arb and arb.split("::")[0] in unit_status:
             un, fn = arb.split("::", 1)
@@ -1175,6 +1189,13 @@ def run(prop, tier, obs, jobs, replay_dir, known_sites):
                 rec["status"] = "discharged"
                 rec["note"] = ("exact expression tree differs from the recorded association (%s); the idealised twin %s re-proved the "
                                "clause over the reals on this tree" % ("; ".join(f["msg"] for f in forgiven[fn]), ob.get("arbiter")))
+            elif fn in failing and clients_all_pass(u["name"], fn):
+                # the exact twin(s) proved that the code still computes the recorded expression tree, so the idealised
+                # statement about that tree is the same mathematical fact as on the unchanged tree: a failure here is
+                # solver instability on a perturbed query, not a change of behaviour
+                rec["status"] = "undecided"
+                rec["note"] = "idealised twin failed although its exact twin is proved: solver instability"
+                info["undecided"].append("verus %s::%s: idealised twin failed while its exact twin holds (solver instability)" % (u["name"], fn))
             elif fn in failing:
                 rec["status"] = "refuted"
                 rec["failed"] = [{"description": f["msg"], "lines": f["lines"]} for f in failing[fn]]
